@@ -63,7 +63,14 @@ func (v *vigil) BeginVigil() {
 }
 
 func (v *vigil) CeaseVigil() {
+	// The decrement must happen under the mutex that WaitForActiveVigilsClosed
+	// holds between its check of the counter and cond.Wait(). Without it the
+	// last CeaseVigil can decrement and broadcast inside that window: the
+	// waiter has already seen a non-zero counter, has not yet registered with
+	// the condition variable, misses the broadcast and then sleeps forever.
+	v.mu.Lock()
 	atomic.AddInt64(&v.vigils, -1)
+	v.mu.Unlock()
 	verifhook.Point("vigil.cease.gap", atomic.LoadInt64(&v.vigils))
 	v.cond.Broadcast()
 }
